@@ -3,6 +3,8 @@ mod gen;
 mod replay;
 mod rng;
 mod svgops;
+mod pixops;
+mod faultops;
 mod histops;
 mod wasmops;
 mod tables;
@@ -15,6 +17,15 @@ fn main() {
         Some("dump-tables") => print!("{}", tables::dump()),
         Some("gen") if args.len() == 6 => {
             gen::run(&args[2], &args[3], args[4].parse().unwrap_or(0), &args[5]);
+        }
+        Some("fault-child") if args.len() == 7 => {
+            faultops::child(
+                args[2].parse().unwrap_or(0),
+                args[3].parse().unwrap_or(0),
+                &args[4],
+                args[5].parse().unwrap_or(4),
+                &args[6],
+            );
         }
         Some("rerun") if args.len() >= 3 => {
             // prints the protocol line of a recorded case with the implementation's current result
